@@ -1259,6 +1259,57 @@ def shared_typedef(chk):
     return n
 
 
+def empty_braces(chk):
+    """Empty braces (C23 6.7.10, accepted by cproc and tested by test/initializer-empty.c) as the initialiser of an element of an array:
+    every sequence of {} / {k} / {k, k} / nested forms for the rows of int[3][2], int[][2], int[2][2][2] and a structure holding an array;
+    the expected image is computed here (an element with empty braces is zero, the next initialiser belongs to the NEXT element)."""
+    srv = fs.server('fs')
+    n = 0
+    rows = (('{}', (0, 0)), ('{%d}', None), ('{%d, %d}', None), ('{[1] = %d}', None))
+
+    def rowval(form, k):
+        if form == '{}':
+            return '{}', (0, 0)
+        if form == '{%d}':
+            return form % k, (k, 0)
+        if form == '{%d, %d}':
+            return form % (k, k + 1), (k, k + 1)
+        return form % k, (0, k)
+    for cnt in (1, 2, 3):
+        for forms in itertools.product([r[0] for r in rows], repeat=cnt):
+            if '{}' not in forms:
+                continue
+            texts, vals = [], []
+            for i, f in enumerate(forms):
+                t, v = rowval(f, 10 * (i + 1))
+                texts.append(t)
+                vals.append(v)
+            for decl, nrows in (('int e[3][2]', 3), ('int e[][2]', cnt), ('struct { char c; int m[3][2]; } e', 3), ('int e[2][3][2]', 6)):
+                init = '{%s}' % ', '.join(texts)
+                if decl.startswith('struct'):
+                    init = '{7, %s}' % init
+                    pre = struct.pack('<bxxx', 7)
+                elif decl == 'int e[2][3][2]':
+                    init = '{%s}' % init
+                    pre = b''
+                else:
+                    pre = b''
+                want = pre + b''.join(struct.pack('<ii', *(vals[i] if i < len(vals) else (0, 0))) for i in range(nrows))
+                src = '%s = %s;\nunsigned long esz = sizeof e;\n' % (decl, init)
+                r = srv.compile(src, cpu_s=10)
+                n += 1
+                if r.status != 0:
+                    chk.violation('empty-braces/rejected', '%s rejected (status %s): %s' % (src.split(chr(10))[0], r.status, r.err[:160]), files={'input.c': src.encode()}, cmd='$CPROC_QBE input.c')
+                    continue
+                objs = L.parse_qbe_data(r.out)
+                got = objs['e'].image if 'e' in objs else None
+                gsz = struct.unpack('<Q', objs['esz'].image)[0] if 'esz' in objs else None
+                if got != want or gsz != len(want):
+                    chk.violation('empty-braces/next-initialiser-lands-in-the-wrong-element', '%s: image %s (sizeof %r), expected %s' % (
+                        src.split(chr(10))[0], got.hex() if got is not None else None, gsz, want.hex()), files={'input.c': src.encode()}, cmd='$CPROC_QBE input.c | grep "data \\$e"')
+    return n
+
+
 def main(chk):
     quick = chk.quick
     TOTKEYS = ('cases', 'evals', 'compared', 'witness_warned', 'witness_split', 'witness_differ', 'expected_reject', 'd_run',
@@ -1359,13 +1410,15 @@ def main(chk):
         chk.strata[s] = strata[s]
     nshared = shared_typedef(chk)
     nste = string_then_element(chk)
+    nempty = empty_braces(chk)
     cov = {
         'states': len(states),
         'transitions': len(trans),
         'traces_validated_against_impl': tot['evals'],
         'samples': samples or [{'none': True}],
-        'evaluations': tot['evals'] + tot['cross_target'] + tot['d_compared'] + tot['variants'] + nshared + nste,
+        'evaluations': tot['evals'] + tot['cross_target'] + tot['d_compared'] + tot['variants'] + nshared + nste + nempty,
         'shared_typedef_units': nshared,
+        'empty_braces_units': nempty,
         'string_then_element_objects': nste,
         'thread_and_compound_literal_variants_compared': tot['variants'],
         'cases': tot['cases'],
